@@ -354,6 +354,77 @@ pub fn c17(out: &mut Out) {
     out.bounded("C17/odd and malformed lines against a witness session (real Proto + core task)", "21 hand-picked lines, each on a fresh session, witness request after each", n, n);
 }
 
+/// C16 (content half, bounded): an aggregated pattern subscription and a plain one on the same pattern, fed by the same history;
+/// the concatenated batches must contain, for every key, the same sequence of set / deleted events as the plain subscription saw
+pub fn c16(out: &mut Out) {
+    use std::time::Duration;
+    let rt = tokio::runtime::Builder::new_current_thread().enable_all().build().expect("runtime");
+    // histories over three keys: repeated keys, set/delete alternation, bursts, a pdelete that removes several keys at once
+    let histories: Vec<Vec<Value>> = vec![
+        vec![json!({"set": {"key": "agg/a", "value": 1}}), json!({"set": {"key": "agg/a", "value": 2}}), json!({"set": {"key": "agg/a", "value": 3}})],
+        vec![json!({"set": {"key": "agg/a", "value": 1}}), json!({"delete": {"key": "agg/a"}}), json!({"set": {"key": "agg/a", "value": 2}}), json!({"delete": {"key": "agg/a"}})],
+        vec![json!({"set": {"key": "agg/a", "value": 1}}), json!({"set": {"key": "agg/b", "value": 1}}), json!({"set": {"key": "agg/c", "value": 1}}), json!({"set": {"key": "agg/b", "value": 2}}), json!({"delete": {"key": "agg/c"}}), json!({"set": {"key": "agg/a", "value": 2}})],
+        vec![json!({"set": {"key": "agg/a", "value": 1}}), json!({"set": {"key": "agg/b", "value": 1}}), json!({"pDelete": {"requestPattern": "agg/#"}}), json!({"set": {"key": "agg/b", "value": 2}}), json!({"set": {"key": "agg/a", "value": 3}}), json!({"pDelete": {"requestPattern": "agg/?"}})],
+        vec![json!({"delete": {"key": "agg/pre"}}), json!({"set": {"key": "agg/pre", "value": 9}}), json!({"set": {"key": "agg/pre", "value": 9}}), json!({"delete": {"key": "agg/pre"}}), json!({"set": {"key": "agg/a", "value": 1}})],
+    ];
+    let mut n = 0;
+    for (hi, hist) in histories.iter().enumerate() {
+        for pause_every in [0usize, 2] {
+            n += 1;
+            let r = catch_unwind(AssertUnwindSafe(|| rt.block_on(async {
+                let cfg = worterbuch::Config::new(None).await.expect("config");
+                let mut wb = Worterbuch::with_config(cfg.clone());
+                wb.set("agg/pre".into(), json!(0), worterbuch_common::INTERNAL_CLIENT_ID, true).await.expect("set");
+                let api = spawn_core(wb, cfg.clone());
+                let id_a = uuid::Uuid::from_u128(0xA6);
+                let id_p = uuid::Uuid::from_u128(0xA7);
+                let id_w = uuid::Uuid::from_u128(0xA8);
+                for id in [id_a, id_p, id_w] { api.connected(id, None, Protocol::UNIX).await.expect("connected"); }
+                let (tx_a, mut rx_a) = mpsc::channel(10_000);
+                let (tx_p, mut rx_p) = mpsc::channel(10_000);
+                let (tx_w, mut rx_w) = mpsc::channel(10_000);
+                let mut pa = Proto::new(id_a, tx_a, false, api.config().clone(), api.clone());
+                let mut pp = Proto::new(id_p, tx_p, false, api.config().clone(), api.clone());
+                let mut pw = Proto::new(id_w, tx_w, false, api.config().clone(), api.clone());
+                let mut none = None;
+                pa.process_incoming_message(&json!({"pSubscribe": {"transactionId": 1, "requestPattern": "agg/#", "unique": false, "aggregateEvents": 20, "liveOnly": false}}).to_string(), &mut none).await.expect("psubscribe aggregated");
+                pp.process_incoming_message(&json!({"pSubscribe": {"transactionId": 1, "requestPattern": "agg/#", "unique": false, "liveOnly": false}}).to_string(), &mut none).await.expect("psubscribe plain");
+                tokio::time::sleep(Duration::from_millis(60)).await;
+                for (i, req) in hist.iter().enumerate() {
+                    let mut line = req.clone();
+                    if let Some(o) = line.as_object_mut() { for (_k, b) in o.iter_mut() { b["transactionId"] = json!(100 + i); } }
+                    let _ = pw.process_incoming_message(&line.to_string(), &mut none).await;
+                    if pause_every > 0 && (i + 1) % pause_every == 0 { tokio::time::sleep(Duration::from_millis(45)).await; }
+                }
+                tokio::time::sleep(Duration::from_millis(120)).await;
+                while rx_w.try_recv().is_ok() {}
+                // per key: the sequence of (deleted?, value) events
+                let per_key = |rx: &mut mpsc::Receiver<ServerMessage>| -> BTreeMap<String, Vec<(bool, Value)>> {
+                    let mut m: BTreeMap<String, Vec<(bool, Value)>> = BTreeMap::new();
+                    while let Ok(msg) = rx.try_recv() {
+                        if let ServerMessage::PState(ps) = msg {
+                            match ps.event {
+                                worterbuch_common::PStateEvent::KeyValuePairs(kvs) => for kv in kvs { m.entry(kv.key).or_default().push((false, kv.value)); },
+                                worterbuch_common::PStateEvent::Deleted(kvs) => for kv in kvs { m.entry(kv.key).or_default().push((true, kv.value)); },
+                            }
+                        }
+                    }
+                    m
+                };
+                let got = per_key(&mut rx_a);
+                let want = per_key(&mut rx_p);
+                if got != want { Some(json!({"aggregated_subscription_saw": format!("{got:?}"), "plain_subscription_saw": format!("{want:?}")})) } else { None }
+            })));
+            match r {
+                Err(_) => out.report("C16/no panic in the aggregation scenario", Some("UNLISTED"), json!({"history": hi})),
+                Ok(Some(w)) => out.report("C16/the concatenated batches of an aggregated subscription hold, per key, the event sequence of the plain subscription", Some("UNLISTED"), json!({"history": hist, "pause_every": pause_every, "difference": w})),
+                Ok(None) => {}
+            }
+        }
+    }
+    out.bounded("C16/content of aggregated pattern subscriptions against a plain subscription of the same pattern (real Proto + core task + aggregator task)", "5 histories over 4 keys (repeats, set/delete alternation, bursts, pdelete of several keys) x {no pause, a pause longer than the interval after every 2nd request}; interval 20 ms; the delay bound is NOT checked", n, n);
+}
+
 fn token(secret: &str, claims: Value) -> String {
     use jsonwebtoken::{EncodingKey, Header, encode};
     encode(&Header::default(), &claims, &EncodingKey::from_secret(secret.as_bytes())).expect("jwt")
